@@ -23,7 +23,6 @@ RULE = ("trees of 1-9 cgroups (depth <= 3) with every control file drawn from th
         "stateless reference.")
 ASSUMPTIONS = [
     "usage-like values (memory.current, swap.current, pgscan, io counters) < 2^56 so that the code's int64 sums cannot overflow (limits use the full int64 range)",
-    "cgroup names contain no glob metacharacters (sibling contexts are found through glob(3), C16)",
     "distinct directories have distinct inode numbers while either is held open (kernfs never reuses a cgroup id; the harness pins the inodes)",
     "IEEE double / float rounding is modelled by Lean's Float / Float32 (compared bit for bit), theorems are over Rat",
     "strtof is modelled on `digits[.digits]` only; exponents / hex / inf / nan are outside the kernel grammar",
@@ -39,6 +38,9 @@ ALL = ["id", "children", "current_usage", "swap_usage", "swap_max", "memory_low"
        "io_cost_cumulative", "pg_scan_cumulative", "average_usage", "io_cost_rate", "pg_scan_rate", "anon_usage",
        "file_usage", "shmem_usage", "effective_usage", "memory_growth"]
 NAMES = ["a", "b", "c", "w", "sys", "x.slice", "y", "z-1"]
+# names systemd really produces (escaped characters: a backslash) and other characters glob(3) gives a meaning to; a name is a
+# name - no statistic may treat a sibling's name as a pattern
+META_NAMES = ["dev-disk-by\\x2duuid.swap", "system-getty\\x2dtty.slice", "a*", "b?", "[c]", "w{1,2}", "y\\"]
 DEVS = ["8:0", "8:16", "253:1", "259:0", "7:3"]
 SSD = [1.21e-2, 6.25e-7, 1.07e-3, 2.61e-7, 2.37e-2, 9.10e-10]
 HDD = [1.31e-3, 1.13e-7, 2.58e-1, 5.04e-7, 0.0, 0.0]
@@ -233,7 +235,8 @@ def node(rng, name, depth, budget):
     n = {"name": name, "files": cg_files(rng), "xattrs": xattrs(rng), "children": []}
     if depth < 3:
         k = rng.choice([0, 0, 1, 2, 3]) if depth else rng.choice([1, 2, 3, 4])
-        for nm in rng.sample(NAMES, k):
+        pool = NAMES + META_NAMES if rng.random() < 0.3 else NAMES
+        for nm in rng.sample(pool, k):
             if budget[0] <= 0:
                 break
             budget[0] -= 1
